@@ -62,7 +62,7 @@ def gen(seed: int, tier: str, idx=None):
         s = rng.randrange(len(m.sheets))
         t = rng.randrange(len(m.sheets[s].tables))
         tm = m.sheets[s].tables[t]
-        k = rng.choices(["write", "add_table", "add_sheet", "style", "border", "merge", "add_row", "add_col", "format", "custom_format"], [10, 1, 1, 2, 3, 1, 1, 1, 4, 1.5])[0]
+        k = rng.choices(["write", "add_table", "add_sheet", "style", "border", "merge", "add_row", "add_col", "format", "custom_format"], [10, 1, 1, 2, 3, 2.5, 1, 1, 4, 1.5])[0]
         if k == "write":
             g.emit({"op": "write", "d": 0, "s": s, "t": t, "r": rng.randrange(tm.nrows + 1), "c": rng.randrange(tm.ncols + 1), "v": V.enc(g.value())})
         elif k == "add_table":
@@ -75,8 +75,9 @@ def gen(seed: int, tier: str, idx=None):
         elif k == "border":
             g.emit(gen_border(g, rng, tm, s=s, t=t))
         elif k == "merge":
-            r0, c0 = rng.randrange(tm.nrows), rng.randrange(tm.ncols)
-            g.emit({"op": "merge", "d": 0, "s": s, "t": t, "rects": [[r0, c0, r0 + rng.randint(0, 2), c0 + rng.randint(0, 2)]]})
+            from dsim.profiles.merge import gen_rect
+
+            g.emit({"op": "merge", "d": 0, "s": s, "t": t, "rects": [gen_rect(g, tm, rng)]})
         elif k == "add_row":
             g.emit({"op": "add_row", "d": 0, "s": s, "t": t, "n": rng.randint(1, 3)})
         elif k in ("format", "custom_format"):
